@@ -188,10 +188,31 @@ pub fn gen_hist(rng: &mut Rng, profile: Profile, size: Size) -> Plan {
     let mut krng = rng.fork("knobs");
     let mut prng = rng.fork("plan");
     let n_opens = 1 + prng.usize_below(size.max_reopens + 1);
-    let opens: Vec<Knobs> = (0..n_opens).map(|_| Knobs::gen(&mut krng)).collect();
-    let nkeys = prng.range(2, size.max_keys as u64) as usize;
+    let mut opens: Vec<Knobs> = (0..n_opens).map(|_| Knobs::gen(&mut krng)).collect();
+    // "versions" shape (a quarter of the runs): few keys rewritten and deleted many times under a
+    // long-lived snapshot with small files, so that several versions of one user key survive
+    // compactions, straddle file boundaries inside a level, and are later merged after the
+    // snapshot is released
+    let versions = profile != Profile::Base && prng.chance(1, 4);
+    if versions {
+        for k in opens.iter_mut() {
+            k.max_file_size = *krng.pick(&[128u64, 256, 512, 1024, 4096]);
+            k.max_block_size = *krng.pick(&[16usize, 64, 128, 1024]);
+            k.max_memtable_size = *krng.pick(&[512usize, 1024, 2048, 4096]);
+            k.level_base_bytes = *krng.pick(&[512u64, 2048, 8192]);
+        }
+    }
+    let nkeys = if versions { prng.range(6, size.max_keys as u64) as usize } else { prng.range(2, size.max_keys as u64) as usize };
     let keys = gen_keys(&mut prng, nkeys);
-    let vp = ValProfile::gen(&mut prng, &opens[0]);
+    let mut vp = ValProfile::gen(&mut prng, &opens[0]);
+    if versions {
+        // tiny files (128 B - 4 KiB) and values from a few bytes up to a whole file: table files
+        // hold one to eight entries, levels consist of many small files and an output file is
+        // often cut right after a small entry such as a deletion marker
+        vp.weights = [0, 4, 6, 6, 2, 0, 0];
+        vp.block_ish = (opens[0].max_file_size / 4) as u32;
+        vp.mem_ish = opens[0].max_file_size as u32;
+    }
     let mut tags = TagGen::new();
     let mut w = base_weights(profile);
     // swarm: knock out some alphabet entries for this run
@@ -199,6 +220,14 @@ pub fn gen_hist(rng: &mut Rng, profile: Profile, size: Size) -> Plan {
         if prng.chance(1, 6) {
             w[x] = 0;
         }
+    }
+    if versions {
+        w[SNAP] = w[SNAP].max(5);
+        w[RELEASE] = w[RELEASE].max(3);
+        w[DELETE] = w[DELETE].max(24);
+        w[COMPACT] = w[COMPACT].max(8);
+        w[FLUSH] = w[FLUSH].max(8);
+        w[BURST] = w[BURST].max(8);
     }
     // hot-key bias: a small subset of keys receives most writes in some runs
     let hot: Vec<usize> = if prng.chance(1, 2) { (0..keys.len().min(1 + prng.usize_below(4))).map(|_| prng.usize_below(keys.len())).collect() } else { vec![] };
@@ -215,7 +244,27 @@ pub fn gen_hist(rng: &mut Rng, profile: Profile, size: Size) -> Plan {
     let mut iters: Vec<usize> = vec![];
     let mut next_slot = 0usize;
     let mut reopens_left = n_opens - 1;
+    // versions shape: one snapshot is taken early and released in the middle of the plan, so that
+    // what it pinned is merged later
+    let pin_at = if versions { Some(prng.usize_below(n_ops / 4 + 1)) } else { None };
+    let unpin_at = n_ops / 3 + prng.usize_below(n_ops / 3 + 1);
+    let mut pinned: Option<usize> = None;
+    let mut pin_done = false;
     while ops.len() < n_ops {
+        if let Some(at) = pin_at {
+            if !pin_done && pinned.is_none() && ops.len() >= at {
+                pinned = Some(next_slot);
+                ops.push(Op::Snap { slot: next_slot });
+                next_slot += 1;
+                continue;
+            }
+            if let (Some(slot), true) = (pinned, ops.len() >= unpin_at) {
+                ops.push(Op::Release { slot });
+                pinned = None;
+                pin_done = true;
+                continue;
+            }
+        }
         let kind = prng.weighted(&w);
         match kind {
             PUT => ops.push(Op::Put { k: pick_key(&mut prng), v: tags.val(&mut prng, &vp) }),
@@ -296,7 +345,8 @@ pub fn gen_hist(rng: &mut Rng, profile: Profile, size: Size) -> Plan {
                 let a = prng.pick(&keys).clone();
                 let b = prng.pick(&keys).clone();
                 let (lo, hi) = if a <= b { (a, b) } else { (b, a) };
-                let (start, end) = match prng.below(12) {
+                let narrow = versions && prng.chance(1, 2);
+                let (start, end) = match if narrow { 10 } else { prng.below(12) } {
                     0..=3 => (None, None),
                     4 | 5 => (None, Some(hi)),
                     6 | 7 => (Some(lo), None),
@@ -315,6 +365,9 @@ pub fn gen_hist(rng: &mut Rng, profile: Profile, size: Size) -> Plan {
                     // snapshots and iterators do not survive a reopen
                     snaps.clear();
                     iters.clear();
+                    if pinned.take().is_some() {
+                        pin_done = true;
+                    }
                     ops.push(Op::Reopen { idx });
                 }
             }
@@ -323,6 +376,17 @@ pub fn gen_hist(rng: &mut Rng, profile: Profile, size: Size) -> Plan {
             DESCRIPTOR => ops.push(Op::Descriptor { kind: prng.below(9) as u8 }),
             _ => {}
         }
+    }
+    if versions {
+        // narrow manual compactions push few files at a time through levels made of many small
+        // files (input expansion, boundary files), each followed by a full comparison
+        for _ in 0..prng.range(1, 6) {
+            let k = prng.pick(&keys).clone();
+            ops.push(Op::CompactRange { start: Some(k.clone()), end: Some(k) });
+            ops.push(Op::CheckAll);
+        }
+        ops.push(Op::CompactRange { start: None, end: None });
+        ops.push(Op::CheckAll);
     }
     Plan { keys, opens, ops, clients: vec![], tail: vec![] }
 }
